@@ -119,7 +119,7 @@ func evAddBatches(u *universe, r *hx.Rand, pct int) []jevent {
 // random tail, state-aware through an over-approximation [live] of the connected set
 // (assumes every Connected succeeds), so that "outbound boot node" is only generated
 // for peers certainly not connected unless illFormed is set.
-func evRandom(u *universe, r *hx.Rand, n int, live map[int]bool, illFormed bool) []jevent {
+func evRandom(u *universe, r *hx.Rand, n int, live map[int]bool, illFormed bool, cur *int) []jevent {
 	var ev []jevent
 	np := len(u.addrs)
 	pickPeer := func(wantLive bool) int {
@@ -183,6 +183,13 @@ func evRandom(u *universe, r *hx.Rand, n int, live map[int]bool, illFormed bool)
 				ps = append(ps, r.Intn(np))
 			}
 			ev = append(ev, jevent{K: "prot", Ps: ps})
+		case x < 91 && r.Chance(1, 2):
+			// another Kad is created in the process: rewrites the live package variables
+			b := r.Pick([]int{0, 3, 5, 7, 10, 12, 20})
+			ev = append(ev, jevent{K: "newkad", P: b})
+			if b > 0 {
+				*cur = roundOver(b)
+			}
 		default:
 			ev = append(ev, jevent{K: "reach", P: r.Intn(np), F1: r.Chance(7, 10), F2: r.Bool()})
 		}
@@ -221,13 +228,7 @@ func generate() {
 	cur := 20
 	for _, pl := range plans {
 		if pl.binMax > 0 {
-			cur = pl.binMax
-			if cur < 5 {
-				cur = 5
-			}
-			if cur%5 != 0 {
-				cur = cur - cur%5 + 5
-			}
+			cur = roundOver(pl.binMax)
 		}
 		for k := 0; k < pl.n; k++ {
 			rr := r.Fork(uint64(k))
@@ -263,7 +264,7 @@ func generate() {
 			if flavour == 1 {
 				ev = append(ev, evRamp(u, rr, rr.Intn(2), live)...)
 			}
-			ev = append(ev, evRandom(u, rr, 15+rr.Intn(30)+over, live, flavour == 2)...)
+			ev = append(ev, evRandom(u, rr, 15+rr.Intn(30)+over, live, flavour == 2, &cur)...)
 			jc.Events = ev
 			run.Hist("flavour." + tag)
 			runCase(jc)
@@ -354,7 +355,41 @@ func corpus() []jcase {
 			{K: "force", P: 5}, {K: "force", P: 0}, {K: "out", P: 1, F1: true}, {K: "disc", P: 6}, {K: "disc", P: 6}}
 		cs = append(cs, jc)
 	}
+	// 6. another kademlia.New in the process rewrites quick/saturation thresholds of a live Kad
+	//    (its over-saturation amount stays the one captured at its own New)
+	{
+		u := mkUniverse(r, map[int]int{0: 8, 1: 4, 2: 3}, []int{0, 1, 2})
+		jc := u.jcase("corpus/thresholds-rewritten-by-another-new")
+		jc.BinMax, jc.CB = 5, true
+		ev := []jevent{{K: "add", Ps: seqInts(len(u.addrs))}}
+		for i := range u.addrs {
+			ev = append(ev, jevent{K: "reach", P: i, F1: true})
+		}
+		for _, i := range append(u.inBin(2), u.inBin(1)...) {
+			ev = append(ev, jevent{K: "conn", P: i})
+		}
+		b0 := u.inBin(0)
+		for _, i := range b0[:5] {
+			ev = append(ev, jevent{K: "conn", P: i})
+		}
+		ev = append(ev, jevent{K: "pick", P: b0[5]}, jevent{K: "newkad", P: 20}, jevent{K: "pick", P: b0[5]}, jevent{K: "conn", P: b0[5]},
+			jevent{K: "disc", P: b0[0]}, jevent{K: "pick", P: b0[6]}, jevent{K: "newkad", P: 5}, jevent{K: "pick", P: b0[6]}, jevent{K: "conn", P: b0[6]},
+			jevent{K: "newkad", P: 0}, jevent{K: "conn", P: b0[7]})
+		jc.Events = ev
+		cs = append(cs, jc)
+	}
 	return cs
+}
+
+// roundOver is what kademlia.New makes of a positive BinMaxPeers.
+func roundOver(b int) int {
+	if b < 5 {
+		b = 5
+	}
+	if b%5 != 0 {
+		b = b - b%5 + 5
+	}
+	return b
 }
 
 func seqInts(n int) []int {
